@@ -5,6 +5,7 @@ import (
 	"math/rand"
 	"os"
 	"sort"
+	"sync"
 	"strconv"
 	"strings"
 	"testing"
@@ -125,6 +126,16 @@ func TestC42(t *testing.T) {
 		yield := func(c vt.Case) {
 			if _, ok := c["meta"]; !ok {
 				c["meta"] = false
+			}
+			if c["meta"] == false { // every range history carries the (phase 2) fault fields
+				if _, ok := c["retries"]; !ok {
+					c["retries"] = 0
+				}
+				for _, q := range c["hist"].([]any) {
+					if m := q.(map[string]any); m["fault"] == nil {
+						m["fault"] = map[string]any{"n": -1, "k": 0, "code": 0}
+					}
+				}
 			}
 			yield0(c)
 		}
@@ -280,6 +291,29 @@ func TestC42(t *testing.T) {
 			yield(vt.Case{"src": "rand-dash", "iv": iv, "align": align, "par": []int{1, 4}[rnd.Intn(2)],
 				"world": randWorld(rnd, span+1, 60000), "vunit": int64(1000), "hist": hist})
 		}
+		// ---- (e) phase 2: querier faults under the retry middleware: the n-th distinct downstream request of
+		// a query fails its first k attempts with an HTTP status; sub-requests run one after another ----
+		nf := vt.Pick(8, 150)
+		for i := 0; i < nf; i++ {
+			tick := int64(15000)
+			T := int64(10 + rnd.Intn(8))
+			iv := []int64{4, 6}[rnd.Intn(2)] * tick
+			var hist []any
+			faults := 0
+			for n := 2 + rnd.Intn(4); n > 0; n-- {
+				st := []int64{1, 2, 4}[rnd.Intn(3)]
+				s := rnd.Int63n(T+1) / st * st
+				e := (s + rnd.Int63n(T+1-s)) / st * st
+				q := map[string]any{"s": s * tick, "e": e * tick, "st": st * tick, "lose": -1}
+				if faults < vt.Pick(1, 2) && rnd.Intn(2) == 0 {
+					faults++
+					q["fault"] = map[string]any{"n": rnd.Intn(3), "k": 1 + rnd.Intn(2), "code": []int{500, 503, 500, 400, 422}[rnd.Intn(5)]}
+				}
+				hist = append(hist, q)
+			}
+			yield(vt.Case{"src": "rand-fault", "iv": iv, "align": true, "par": 1, "retries": rnd.Intn(4),
+				"world": randWorld(rnd, T*tick, tick), "vunit": tick, "hist": hist})
+		}
 		// ---- (d) phase 2: metadata requests and instant queries (c42meta_test.go) ----
 		c42MetaGen(t, rnd, yield, scale, randWorld)
 	}
@@ -296,12 +330,41 @@ func TestC42(t *testing.T) {
 			}
 			return MatrixJSON(c42Eval(w, vunit, r.Start, r.End, r.Step))
 		}}
+		// fault injection: the n-th distinct request of the current query fails its first k attempts
+		var fmu sync.Mutex
+		var fN, fK, fCode, fTrig, fAtt int
+		var fOrder []string
+		down.Fail = func(r SubReq) int {
+			fmu.Lock()
+			defer fmu.Unlock()
+			key := fmt.Sprint(r.Start, r.End, r.Step)
+			idx := -1
+			for i, k := range fOrder {
+				if k == key {
+					idx = i
+				}
+			}
+			if idx < 0 {
+				fOrder = append(fOrder, key)
+				idx = len(fOrder) - 1
+			}
+			if idx != fN {
+				return 0
+			}
+			fAtt++
+			if fAtt <= fK {
+				fTrig++
+				return fCode
+			}
+			return 0
+		}
 		cache := queryfrontend.NewVerifCache()
 		rt, err := queryfrontend.VerifNewTripperware(queryfrontend.VerifTripperwareOptions{
 			SplitInterval:       time.Duration(vt.Int64(c["iv"])) * time.Millisecond,
 			AlignRangeWithStep:  vt.Bool(c["align"]),
 			Cache:               cache,
 			MaxQueryParallelism: vt.Int(c["par"]),
+			MaxRetries:          vt.Int(c["retries"]),
 		}, down)
 		if err != nil {
 			t.Fatalf("tripperware: %v", err)
@@ -321,6 +384,12 @@ func TestC42(t *testing.T) {
 				}
 			}
 			down.Take()
+			fmu.Lock()
+			fN, fK, fCode, fTrig, fAtt, fOrder = -1, 0, 0, 0, 0, nil
+			if f := vt.Map(q["fault"]); f != nil {
+				fN, fK, fCode = vt.Int(f["n"]), vt.Int(f["k"]), vt.Int(f["code"])
+			}
+			fmu.Unlock()
 			got := map[string]any{"err": "", "series": []any{}}
 			func() {
 				defer func() {
@@ -352,6 +421,9 @@ func TestC42(t *testing.T) {
 			}()
 			st["got"] = got
 			st["nsub"] = len(down.Take())
+			fmu.Lock()
+			st["ftrig"], st["fatt"] = fTrig, fAtt // failures injected, attempts the faulted request saw
+			fmu.Unlock()
 			var ext [][]int64
 			for _, e := range cache.Entries() {
 				kst, _, ok := c42KeyFields(e.Key)
